@@ -158,6 +158,8 @@ impl SeqModel for C01 {
                         m.insert(key.to_string(), n.to_string());
                         (obs, vec!["Ok".into()], vec![], Some(m))
                     }
+                    // refused without a change: the reply names the reason
+                    None if parse_int(&cur).is_some() => (obs, vec!["Error(Increment would overflow the key)".into()], vec![], None),
                     None => (obs, vec!["Error(Key is not numeric)".into()], vec![], None),
                 }
             }
